@@ -3,48 +3,28 @@ package main
 import (
 	"fmt"
 	"os"
+
+	"verifharness/astacc"
 )
 
 func main() {
 	if len(os.Args) > 1 && os.Args[1] == "table" {
-		acc, err := collect("/repo")
+		acc, err := astacc.Collect("/repo")
 		if err != nil {
 			panic(err)
 		}
 		for _, a := range acc {
-			fmt.Printf("%-34s %-10s %-15s w=%-5v locked=%-5v atomic=%-5v sync=%v\n", a.Func, a.Struct, a.Field, a.Write, a.Locked, a.Atomic, a.Sync)
+			fmt.Printf("%-34s %-10s %-15s w=%-5v locked=%-5v atomic=%-5v sync=%-5v region=%d\n", a.Func, a.Struct, a.Field, a.Write, a.Locked, a.Atomic, a.Sync, a.Region)
 		}
 		return
 	}
 	if len(os.Args) > 1 && os.Args[1] == "table-coq" {
-		acc, err := collect("/repo")
+		acc, err := astacc.Collect("/repo")
 		if err != nil {
 			panic(err)
 		}
-		fmt.Print(coqTable(acc))
+		fmt.Print(astacc.CoqTable(acc))
 		return
 	}
 	runMain()
-}
-
-func coqAcc(a access) string {
-	b := func(x bool) string {
-		if x {
-			return "true"
-		}
-		return "false"
-	}
-	return fmt.Sprintf("Acc %q %q %q %s %s %s %s", a.Func, a.Struct, a.Field, b(a.Write), b(a.Locked), b(a.Atomic), b(a.Sync))
-}
-
-func coqTable(acc []access) string {
-	s := "(* GENERATED by `harness/cmd/race table-coq` from /repo's source (go/ast). Do not edit: the C16 check\n   regenerates the table on every run and compares it with this file. *)\nFrom Coq Require Import String List.\nImport ListNotations.\nFrom GoRes Require Import Sched.Access.\nOpen Scope string_scope.\nDefinition access_table : list acc := [\n"
-	for i, a := range acc {
-		s += "  " + coqAcc(a)
-		if i+1 < len(acc) {
-			s += ";"
-		}
-		s += "\n"
-	}
-	return s + "].\n"
 }
